@@ -141,8 +141,8 @@ ENUM_CFGS = (
 
 def fixed_cases():
     """One fixed case per (layout, granularity): inside it *every* placement of one worker exception is tried."""
-    return ([{"mode": 63, "enum_cfg": c, "enum_gran": g} for c in range(len(ENUM_CFGS)) for g in (0, 1)] +
-            [{"mode": 62, "order_cfg": c} for c in range(len(ORDER_CFGS))])
+    return ([{"mode": 63, "enum_confirm": 1, "enum_cfg": c, "enum_gran": g} for c in range(len(ENUM_CFGS)) for g in (0, 1)] +
+            [{"mode": 62, "enum_confirm": 1, "order_cfg": c} for c in range(len(ORDER_CFGS))])
 
 
 def _enum_case(ch, out):
@@ -263,11 +263,11 @@ def _order_case(ch, out):
 
 def case(ch):
     out = Outcome()
+    # the enumerations are the *fixed* cases of every batch (forced draws); a random case runs one only with
+    # probability 1/32000, otherwise it is an ordinary random case
     mode = ch.draw("mode", 64)
-    if mode == 63:
-        return _enum_case(ch, out)
-    if mode == 62:
-        return _order_case(ch, out)
+    if mode >= 62 and ch.draw("enum_confirm", 1000) == 1:
+        return _enum_case(ch, out) if mode == 63 else _order_case(ch, out)
     cfg = bw.gen_config(ch)
     content = bw.gen_content(ch, cfg)
     hot, line = bw.gen_yield_settings(ch)
